@@ -35,7 +35,7 @@ PARSER_C = r'''
 @@states@@
 @@contexts@@
 #include "vf_xdl.h"
-Context g_c0, g_c1, g_c2; int g_cd; char g_buf[VF_BUFCAP]; int g_buflen;
+Context g_c0, g_c1, g_c2; int g_cd, g_pend; char g_buf[VF_BUFCAP]; int g_buflen;
 int g_lists_pushed, g_lists_popped, g_props_pushed, g_values, g_pushback, g_int_digits, g_string_done, g_key_done;
 typedef struct XdlParser { State _state, _prevState; bool _inComment; int _unicodeCount; char _ldp; char _unicode[4]; wchar_t _wchar; } XdlParser;
 static bool myisspace(char c) @@isspace@@
@@ -66,6 +66,9 @@ static void XdlParser_step(XdlParser* self, char c) @@step@@
 /* the innermost open container (below any comment markers) */
 #define EC (IS_CMT(g_c0) ? (g_c0 == ENDCOMMENT ? g_c2 : g_c1) : g_c0)
 #define KEY_STATE(s) ((s) == PROPERTY || (s) == QPROPERTY || (s) == WAIT_PROPERTY || (s) == WAIT_COMMA_OR_PROPERTY || (s) == WAIT_EQUAL)
+/* in an object: is a member name pending in this state?  no while a name is awaited or being read and right after a value; yes from the end of the name until its value is placed */
+#define NAME_STATE(s, p) ((s) == WAIT_PROPERTY || (s) == WAIT_COMMA_OR_PROPERTY || (s) == PROPERTY || (s) == QPROPERTY || (((s) == ESCAPE || (s) == UNICODECHAR) && (p) == QPROPERTY))
+#define PEND_EXPECTED(self) ((NAME_STATE((self)->_state, (self)->_prevState) || (self)->_state == WAIT_SEP) ? 0 : 1)
 #define INV(self) ( INV_STACK && (KEY_STATE((self)->_state) ==> EC == OBJECT) \
    && (((self)->_state == ESCAPE || (self)->_state == UNICODECHAR) ==> ((self)->_prevState == STRING || ((self)->_prevState == QPROPERTY && EC == OBJECT))) \
    && ((self)->_state == WAIT_SEP ==> EC != ROOT) && ((self)->_state == WAIT_COMMA_OR_VALUE ==> EC == ARRAY) && ((self)->_state == WAIT_OBJ ==> true) \
@@ -74,7 +77,9 @@ static void XdlParser_step(XdlParser* self, char c) @@step@@
    && (self)->_unicodeCount >= 0 && (self)->_unicodeCount < 8 && g_buflen >= 0 \
    && ((self)->_unicodeCount >= 4 ==> ((self)->_wchar >= 0xd800 && (self)->_wchar < 0xdc00)) \
    && (((self)->_state != UNICODECHAR && (self)->_state != ERR) ==> ((self)->_unicodeCount == 0 || (self)->_unicodeCount == 4)) \
-   && (g_buflen < VF_BUFCAP ==> g_buf[g_buflen] == 0) )      /* _buffer is a String: its NUL sits at its length (begin_object / new_string read it as a C string) */
+   && (g_buflen < VF_BUFCAP ==> g_buf[g_buflen] == 0) \
+   && (g_pend == 0 || g_pend == 1) && (EC != OBJECT ==> g_pend == 0) \
+   && ((EC == OBJECT && (self)->_state != ERR) ==> g_pend == PEND_EXPECTED(self)) )      /* _buffer is a String: its NUL sits at its length (begin_object / new_string read it as a C string) */
 '''
 
 step_safety = Unit(
@@ -98,7 +103,7 @@ __CPROVER_ensures((g_cd - CMT_COUNT(g_c0)) < (g_cd0 - g_cm0) ==> ((c == ']' || c
 __CPROVER_ensures((g_state0 == STRING && c != '"') ==> (self->_state == STRING || self->_state == ESCAPE || self->_state == ERR))
 /* an escape sequence (\\x or \\uXXXX), once complete, goes back to the state it was met in: a string value stays a value, a quoted member name stays a name */
 __CPROVER_ensures(((g_state0 == ESCAPE || g_state0 == UNICODECHAR) && self->_state != ESCAPE && self->_state != UNICODECHAR && self->_state != ERR) ==> self->_state == g_prev0)
-__CPROVER_assigns(*self, g_c0, g_c1, g_c2, g_cd, g_buf, g_buflen, g_lists_pushed, g_lists_popped, g_props_pushed, g_values, g_pushback, g_int_digits, g_string_done, g_key_done)
+__CPROVER_assigns(*self, g_c0, g_c1, g_c2, g_cd, g_pend, g_buf, g_buflen, g_lists_pushed, g_lists_popped, g_props_pushed, g_values, g_pushback, g_int_digits, g_string_done, g_key_done)
 { XdlParser_step(self, c); }
 void vf_harness(void) { XdlParser* p; char c; vf_step(p, c); VF_CANARY(); }
 ''',
